@@ -244,35 +244,70 @@ def check_front_back(ctx, unit, classes, rule="P.front-back"):
 # ---- O5: relocation ranges ------------------------------------------------------
 
 def check_relocation(ctx, unit, classes, rule="O5.relocate-range"):
-    ctx.rule(rule, "in _ensure_capacity the range move-constructed into the new buffer equals the range destroyed in the "
-             "old buffer equals the live range [0, size)", len(classes))
+    """Growth, wherever it is written (the growth helper itself, a helper it was split into, a caller it was folded into):
+    a *relocation* is a placement new into a fresh allocation whose initialiser reads an element of the storage the
+    container had on entry; in every member that relocates, the relocated index range, the range destroyed in the old
+    storage and the live range [0, size) are the same.  Loops that construct *new* elements (from arguments, through a
+    construct callback) are not relocations."""
+    ctx.rule(rule, "where elements are move-constructed from the old storage into a new buffer, the relocated range equals the range "
+             "destroyed in the old buffer equals the live range [0, size)", len(classes))
     for cls in classes:
+        n_sites = 0
         for rec in recs_of(unit, cls):
-            fns = [f for f in cls_fns(unit, rec["qn"]) if f.name == "_ensure_capacity"]
-            if not fns:
-                raise AnalysisBroken("anchor vanished: %s::_ensure_capacity" % rec["qn"])
-            sizef = _size_field(unit, rec, cls_fns(unit, rec["qn"]))
-            for f in fns:
+            allf = cls_fns(unit, rec["qn"])
+            sizef = _size_field(unit, rec, allf)
+            sc = StorageClass(rec, allf)
+            for f in allf:
+                if f.kind == "dtor":
+                    continue
+                old = sc.on(f)
                 loops = for_loops(f)
-                moves, dtors = [], []
-                for lp in loops:
-                    for n in f.events():
-                        if not lp.contains(n):
-                            continue
-                        if n.kind == "CXXNewExpr" and n.get("placement"):
-                            moves.append(lp)
-                        if is_dtor_call(n) is not None:
+
+                def innermost(n):
+                    best = None
+                    for lp in loops:
+                        if lp.contains(n) and (best is None or len(lp.nl.body) < len(best.nl.body)):
+                            best = lp
+                    return best
+                moves, dtors, stray, move_nodes = [], [], [], []
+                for n in f.events():
+                    if n.kind == "CXXNewExpr" and n.get("placement") and n.get("pargs"):
+                        init = n.child("init")
+                        src_old = False
+                        if init is not None:
+                            iv = std_unwrap(init)
+                            for a in (iv.args if iv.kind in ("CXXConstructExpr", "CXXTemporaryObjectExpr") else [iv]):
+                                aa = std_unwrap(a)
+                                if aa.kind in ("ArraySubscriptExpr", "UnaryOperator") and old(aa) is True:
+                                    src_old = True
+                        if old(f.node(n.get("pargs")[0])) is False and src_old:
+                            lp = innermost(n)
+                            (moves if lp is not None else stray).append(lp if lp is not None else n)
+                            move_nodes.append(n)
+                if not moves and not stray:
+                    continue
+                for n in f.events():
+                    o = is_dtor_call(n)
+                    # (only destruction that can follow the relocation: a shrink branch of the same member is a different path)
+                    if o is not None and old(o) is True and any(f.reaches(m.id, n.id) for m in move_nodes):
+                        lp = innermost(n)
+                        if lp is not None and lp not in dtors:
                             dtors.append(lp)
-                if len(moves) != 1 or len(dtors) != 1:
-                    ctx.inst(rule, "%s::_ensure_capacity" % cls, False, f.loc,
-                             "expected one relocation loop and one destruction loop, found %d and %d" % (len(moves), len(dtors)), f)
+                moves = [m for i, m in enumerate(moves) if m not in moves[:i]]
+                n_sites += 1
+                if len(moves) != 1 or len(dtors) != 1 or stray:
+                    ctx.inst(rule, "%s::%s" % (cls, f.name), False, f.loc,
+                             "expected one relocation loop and one destruction loop over the old storage, found %d and %d%s" % (
+                                 len(moves), len(dtors), " (and a relocation outside any loop)" if stray else ""), f)
                     continue
                 mb, db = moves[0].bound_canon(), dtors[0].bound_canon()
                 ms, ds = moves[0].start_canon(), dtors[0].start_canon()
                 want = "this.%s" % sizef
                 ok = mb == db == want and ms == ds == "0" and moves[0].op == dtors[0].op == "<"
-                ctx.inst(rule, "%s::_ensure_capacity" % cls, ok, f.loc,
+                ctx.inst(rule, "%s::%s" % (cls, f.name), ok, f.loc,
                          "relocates [%s, %s), destroys [%s, %s), live range is [0, %s) (instantiation %s)" % (ms, mb, ds, db, want, rec["qn"]), f)
+        if n_sites == 0:
+            raise AnalysisBroken("anchor vanished: no member of %s relocates elements into a new buffer" % cls)
 
 
 # ---- R: forwarded pack consumed once -------------------------------------------------
@@ -449,6 +484,11 @@ def check_local_allocs(ctx, unit, fns, rule="O1.alloc-escapes"):
                 ctx.inst(rule, inst, True, call.loc, "initialises a member", f)
                 continue
             if did is None:
+                # handed straight to a virtually inlined helper: the helper's parameter is the local that holds the block
+                for x in f.all_nodes():
+                    if x.kind == "ParamBind" and x.d.get("init") in (n.id, call.id):
+                        did, bind = x.d["d"], x
+            if did is None:
                 ctx.inst(rule, inst, False, call.loc, "result of %s is not bound to anything that can own it" % canon(call)[:60], f)
                 continue
 
@@ -478,6 +518,8 @@ def check_local_allocs(ctx, unit, fns, rule="O1.alloc-escapes"):
                 m = std_unwrap(m)
                 if m.kind == "CXXNewExpr" and m.get("placement") and m.get("pargs"):
                     return is_x(f.node(m.get("pargs")[0]))
+                if m.id == call.id or m.strip().id == call.id:
+                    return True         # (a parameter of a virtually inlined helper *is* the allocation expression)
                 return m.kind == "DeclRefExpr" and m.d["d"] in xs
 
             def transfer(m, s, did=did, bind=bind):
@@ -694,18 +736,35 @@ def check_small_vector_selection(ctx, unit, cls="frg::small_vector", rule="E.inl
 
         for f in fns:
             k = 0
+            def arms(v):
+                """(value, element at which the branch decisions are read): the arms of `c ? a : b` are separate sites."""
+                x = v.strip()
+                if x.kind == "ConditionalOperator" and len(x.children) == 3:
+                    return arms(x.children[1]) + arms(x.children[2])
+                return [v]
+            pos = f.positions()
+
+            def anchor(v, r):
+                cur, hops = v.strip(), 0
+                while cur is not None and cur.id not in pos and hops < 10:
+                    ch = cur.children
+                    cur, hops = (ch[0] if ch else None), hops + 1
+                return cur if cur is not None and cur.id in pos else r
             for r in f.return_nodes():
-                v = r.child("val")
-                if v is None or "*" not in (f.get("ret") or ""):
+                v0 = r.child("val")
+                if v0 is None or "*" not in (f.get("ret") or ""):
                     continue
-                vv = std_unwrap(v)          # (sees through a virtually inlined accessor)
-                p = path(vv)
-                if p == ("this", heap):
-                    k += 1
-                    judge(f, r, True, "heap pointer returned", k)
-                elif any(x.kind == "MemberExpr" and x.get("mk") == "Field" and x.m in inline and path(x) == ("this", x.m) for x in list(v.walk()) + list(vv.walk())):
-                    k += 1
-                    judge(f, r, False, "inline buffer returned", k)
+                al = arms(v0)
+                for v in al:
+                    at = r if len(al) == 1 else anchor(v, r)
+                    vv = std_unwrap(v)          # (sees through a virtually inlined accessor)
+                    p = path(vv)
+                    if p == ("this", heap):
+                        k += 1
+                        judge(f, at, True, "heap pointer returned", k)
+                    elif any(x.kind == "MemberExpr" and x.get("mk") == "Field" and x.m in inline and path(x) == ("this", x.m) for x in list(v.walk()) + list(vv.walk())):
+                        k += 1
+                        judge(f, at, False, "inline buffer returned", k)
             if f.kind == "dtor":
                 for i, n in enumerate(free_calls(f)):
                     if n.kind == "CXXMemberCallExpr":
@@ -1050,6 +1109,13 @@ class StorageExchange:
                         rs = g.return_nodes()
                         if len(rs) == 1 and rs[0].child("val") is not None and not g.params():
                             return self.ev(rs[0].child("val"), {"this": env[po[0]]}, depth + 1)
+            # a local that snapshots a decision (`const bool a_small = a._is_small();`)
+            if x.kind == "DeclRefExpr" and x.get("local") and depth < 3 and "this" not in env:
+                d = x.d["d"]
+                if d in self.bind:
+                    return self.ev(self.f.node(self.bind[d]), env, depth + 1)
+                if d in self.inits and not RA._reassigned(self.f, d):
+                    return self.ev(self.inits[d], env, depth + 1)
             return None
         return flow.sem_eval(node, leaf)
 
@@ -1260,6 +1326,78 @@ def check_stale_buffer(ctx, unit, classes, rule="K.stale-buffer"):
                 ctx.broken("%s: no local storage pointers found (anchor vanished)" % rec["qn"])
 
 
+class StorageClass:
+    """Does a pointer expression of a member function designate storage reached through the object's own fields (the
+    buffer field, inline storage, the result of a storage accessor, a local or parameter bound to one of them), or a
+    fresh allocation?  on(f) -> classifier(node) -> True (own storage) / False (fresh allocation) / None (unknown);
+    resolved through locals, parameter bindings of virtually inlined helpers, `&p[i]`, `p + k` and casts."""
+
+    def __init__(self, rec, fns):
+        self.ptr_fields = {fl["n"] for fl in rec["fields"] if fl.get("ptr")}
+        self.stor_fields = {fl["n"] for fl in rec["fields"] if "aligned_storage" in fl["t"]}
+        both = self.ptr_fields | self.stor_fields
+        acc = set()         # members returning a pointer into the storage
+        for g in fns:
+            if "*" in (g.get("ret") or "") and any(
+                    x.kind == "MemberExpr" and x.get("mk") == "Field" and x.m in both and path(x) == ("this", x.m)
+                    for r in g.return_nodes() if r.child("val") is not None for x in r.child("val").walk()):
+                acc.add(g.did)
+        grew = True
+        while grew:
+            grew = False
+            for g in fns:
+                if g.did in acc or "*" not in (g.get("ret") or ""):
+                    continue
+                for r in g.return_nodes():
+                    v = r.child("val")
+                    if v is not None and any(x.is_call() and x.callee and x.callee.get("did") in acc for x in std_unwrap(v).walk()):
+                        acc.add(g.did); grew = True
+        self.acc = acc
+
+    def on(self, f):
+        inits = RA.local_inits(f)
+        bind = f.bind_map()
+        both = self.ptr_fields | self.stor_fields
+        acc = self.acc
+
+        def old_storage(node, depth=0, seen=None):
+            seen = seen if seen is not None else set()
+            if node is None or depth > 10:
+                return None
+            x = std_unwrap(node)
+            while True:
+                if x.kind == "UnaryOperator" and x.op == "&" and x.children:
+                    x = std_unwrap(x.children[0]); continue
+                if x.kind == "ArraySubscriptExpr":
+                    x = std_unwrap(x.children[0]); continue
+                if x.kind == "BinaryOperator" and x.op in ("+", "-"):
+                    x = std_unwrap(x.children[0]); continue
+                if x.kind in ("CXXReinterpretCastExpr", "CStyleCastExpr", "CXXStaticCastExpr", "ParenExpr", "ImplicitCastExpr") and x.children:
+                    x = std_unwrap(x.children[0]); continue
+                break
+            if x.kind == "MemberExpr" and x.get("mk") == "Field":
+                p_ = path(x)
+                if p_ and p_[0] == "this" and len(p_) >= 2 and p_[1] in both:
+                    return True
+                if x.children:
+                    return old_storage(x.children[0], depth + 1, seen)
+            if x.kind == "CXXMemberCallExpr" and x.callee and x.callee.get("did") in acc and path(x.child("obj")) == ("this",):
+                return True
+            if x.is_call() and x.callee and x.callee["n"] in ("allocate",):
+                return False
+            if x.kind == "DeclRefExpr" and x.get("local"):
+                d = x.d["d"]
+                if d in seen:
+                    return None
+                seen.add(d)
+                if d in bind:
+                    return old_storage(f.node(bind[d]), depth + 1, seen)
+                if d in inits and not RA._reassigned(f, d):
+                    return old_storage(inits[d], depth + 1, seen)
+            return None
+        return old_storage
+
+
 def check_built_into_kept_storage(ctx, unit, classes, rule="K.built-into-kept-storage"):
     """Growth constructs the new element(s) BEFORE the old elements are relocated (so that an argument that aliases an
     element is still alive).  The new element therefore has to be built in the array that is kept: on a path on which the
@@ -1275,67 +1413,12 @@ def check_built_into_kept_storage(ctx, unit, classes, rule="K.built-into-kept-st
         for rec in recs_of(unit, cls):
             fns = cls_fns(unit, rec["qn"])
             by_did = {f.did: f for f in fns}
-            ptr_fields = {fl["n"] for fl in rec["fields"] if fl.get("ptr")}
-            stor_fields = {fl["n"] for fl in rec["fields"] if "aligned_storage" in fl["t"]}
-            acc = set()         # members returning a pointer into the storage
-            for g in fns:
-                if "*" in (g.get("ret") or "") and any(
-                        x.kind == "MemberExpr" and x.get("mk") == "Field" and x.m in ptr_fields | stor_fields and path(x) == ("this", x.m)
-                        for r in g.return_nodes() if r.child("val") is not None for x in r.child("val").walk()):
-                    acc.add(g.did)
-            grew = True
-            while grew:
-                grew = False
-                for g in fns:
-                    if g.did in acc or "*" not in (g.get("ret") or ""):
-                        continue
-                    for r in g.return_nodes():
-                        v = r.child("val")
-                        if v is not None and any(x.is_call() and x.callee and x.callee.get("did") in acc for x in std_unwrap(v).walk()):
-                            acc.add(g.did); grew = True
+            sc = StorageClass(rec, fns)
+            ptr_fields = sc.ptr_fields
             for f in fns:
                 if f.kind == "dtor":
                     continue
-                inits = RA.local_inits(f)
-                bind = f.bind_map()
-
-                def old_storage(node, depth=0, seen=None):
-                    """True when the pointer expression designates storage reached through the object's own fields
-                    (False for a fresh allocation, None when unknown)."""
-                    seen = seen if seen is not None else set()
-                    if node is None or depth > 10:
-                        return None
-                    x = std_unwrap(node)
-                    while True:
-                        if x.kind == "UnaryOperator" and x.op == "&" and x.children:
-                            x = std_unwrap(x.children[0]); continue
-                        if x.kind == "ArraySubscriptExpr":
-                            x = std_unwrap(x.children[0]); continue
-                        if x.kind == "BinaryOperator" and x.op in ("+", "-"):
-                            x = std_unwrap(x.children[0]); continue
-                        if x.kind in ("CXXReinterpretCastExpr", "CStyleCastExpr", "CXXStaticCastExpr", "ParenExpr", "ImplicitCastExpr") and x.children:
-                            x = std_unwrap(x.children[0]); continue
-                        break
-                    if x.kind == "MemberExpr" and x.get("mk") == "Field":
-                        p_ = path(x)
-                        if p_ and p_[0] == "this" and len(p_) >= 2 and p_[1] in ptr_fields | stor_fields:
-                            return True
-                        if x.children:
-                            return old_storage(x.children[0], depth + 1, seen)
-                    if x.kind == "CXXMemberCallExpr" and x.callee and x.callee.get("did") in acc and path(x.child("obj")) == ("this",):
-                        return True
-                    if x.is_call() and x.callee and x.callee["n"] in ("allocate",):
-                        return False
-                    if x.kind == "DeclRefExpr" and x.get("local"):
-                        d = x.d["d"]
-                        if d in seen:
-                            return None
-                        seen.add(d)
-                        if d in bind:
-                            return old_storage(f.node(bind[d]), depth + 1, seen)
-                        if d in inits and not RA._reassigned(f, d):
-                            return old_storage(inits[d], depth + 1, seen)
-                    return None
+                old_storage = sc.on(f)
                 news = {}
                 for n in f.events():
                     if n.kind == "CXXNewExpr" and n.get("placement") and n.get("pargs"):
